@@ -16,12 +16,13 @@ POWER = False
 
 
 def models(tier, seed):
-    return [dict(module='MC_C02.tla', cfg=f'MC_C02_{tier}.cfg', batch=100)]
+    return [dict(module='MC_C02.tla', cfg=f'MC_C02_{tier}.cfg', batch=100),
+            dict(module='MC_C02.tla', cfg='MC_C02_high.cfg', batch=100)]     # sources at 1000 rad/s probed just inside / outside the (absolute) resolution
 
 
 def required_tags(tier):
     return ['w=0', 'w>0', 'near_resolution', 'k:capacitor', 'k:inductance', 'k:lamp', 'k:ac_voltage_source', 'k:dc_voltage_source', 'k:ac_current_source',
-            'k:dc_current_source', 'src_off_frequency', 'ground', 'no_ground', 'peak', 'rms', 'dc']
+            'k:dc_current_source', 'src_off_frequency', 'near_resolution_of_high_frequency_source', 'ground', 'no_ground', 'peak', 'rms', 'dc']
 
 
 def impedances(comps, zu, w):
@@ -132,6 +133,8 @@ def replay(case, ctx):
             wf = float(w) * wu
             near = w.denominator >= 100
             tg.add('near_resolution' if near else ('w=0' if w == 0 else 'w>0'))
+            if near and w > 900 and any(c['kind'].startswith('ac') and rat(c['v']['w']) > 900 for c in comps):
+                tg.add('near_resolution_of_high_frequency_source')
             for c in comps:
                 if 'w' in c['v'] and c['kind'].startswith('ac') and abs(rat(c['v']['w']) - w) > rat(case['res']):
                     tg.add('src_off_frequency')
